@@ -8,10 +8,10 @@ AllInners == {"I1", "I2", "I3", "I4", "I5"}
 O12 == {"O1", "O2"}
 I12 == {"I1", "I3"}
 KL_one   == { <<"K1">> }
-KL_c04   == { <<"K1">>, <<"K4", "K1">>, <<>> }
-KL_c02   == { <<"K1">>, <<"K2", "K1">>, <<"K1b">>, <<"K4">> }
+KL_c04   == { <<"K1">>, <<"K4", "K1">>, <<>>, <<"KX", "K4", "K1">> }
+KL_c02   == { <<"K1">>, <<"K2", "K1">>, <<"K1b">>, <<"K4">>, <<"KX", "K1", "K4">> }
 \* every list of 1..N distinct keys from the pool
-Pool == {"K1", "K2", "K3", "K4", "K5"}
+Pool == {"K1", "K2", "K3", "K4", "K5", "KX"}
 RECURSIVE Perms(_, _)
 Perms(S, k) == IF k = 0 THEN { <<>> } ELSE UNION { { <<x>> \o t : t \in Perms(S \ {x}, k - 1) } : x \in S }
 KL_c09_3 == UNION { Perms(Pool, k) : k \in 1..3 }
